@@ -244,9 +244,9 @@ def main():
     run.notes["replay_traditional"] = rp.stats
 
     # ---- azimuthal: 2 azimuths x 3 windows --------------------------------------------------------
-    ex2 = hvsrobj.cfg_text(2, 3, 6, "Alpha6a", "Ranges6s", "NSetC", "MaxItsC", "InitEnv", export=True, nxt="NextC06",
+    ex2 = hvsrobj.cfg_text(2, 3, 6, "Alpha6a", "Ranges6s", "NSetC", "MaxItsC", "InitEnvAz", export=True, nxt="NextC06",
                            props=["FdwraStep"])
-    res, graph2 = hvsrobj.export_graph(ex2, "C06-export2", {"VERIF_K": 12000 if quick else 3000, "VERIF_SEED": run.seed}, timeout=3000)
+    res, graph2 = hvsrobj.export_graph(ex2, "C06-export2", {"VERIF_K": 30000 if quick else 3000, "VERIF_SEED": run.seed}, timeout=3000)
     run.add_tlc(res, "HvsrObject NA=2 NextC06 export + FdwraStep")
     consts2 = ("  NA = 2\n  NW = 3\n  NF = 6\n  Alphabet <- Alpha6a\n  Ranges <- Ranges6s\n  NSet <- NSetC\n"
                "  MaxIts <- MaxItsC\n  TdMasks <- AllMasks\n  InitSel <- InitAll\n  SThr <- SThrHalf\n")
